@@ -22,7 +22,7 @@ one() {
   git -C /repo worktree remove --force "$WT" >/dev/null 2>&1
 }
 export -f one; export PROPS TIER
-ls seeded | xargs -P 6 -I{} bash -c 'one {}'
+ls seeded | xargs -P 14 -I{} bash -c 'one {}'
 python3 - <<'PY'
 import json,glob
 rows=[]
